@@ -25,14 +25,15 @@
 (* Iterate(s) = the lazy init (newGenericMergeSeriesSet, the sync.Once of   *)
 (* secondaryQuerier: all-or-nothing over all Selects of a secondary) and    *)
 (* genericMergeSeriesSet.Next until false, LabelQuery = mergeResults,      *)
-(* Append / Commit = fanoutAppender.  Two deviations of the code from the  *)
-(* reference are part of the transcription (DESIGN §7-H6, both confirmed): *)
-(*   KF_C54_1  a secondary whose Querier() call fails makes fanout.Querier *)
-(*             return the error                                            *)
+(* Append / Commit = fanoutAppender.  DESIGN §7-H6 was confirmed in both   *)
+(* halves; the first (a secondary whose Querier() call fails made          *)
+(* fanout.Querier return the error, KF-C54-1) is repaired by b4c7e21123    *)
+(* and the transcription follows the repaired code; the second remains a   *)
+(* named deviation:                                                        *)
 (*   KF_C54_2  a secondary that fails on a later Next (after its first     *)
 (*             series) is not discarded: what it returned stays, the error *)
 (*             surfaces through Err() and other Selects still use it       *)
-(* so the invariant is  CodeMatchesRef \/ KF_C54_1 \/ KF_C54_2.            *)
+(* so the invariant is  CodeMatchesRef \/ KF_C54_2.                        *)
 (* Cases carry both predictions: `ref` (verdict) and `code` (to recognise  *)
 (* exactly the modelled deviation).                                        *)
 (***************************************************************************)
@@ -113,12 +114,13 @@ Init == /\ op \in Ops
         /\ lres = [err |-> -1, from |-> {}, warns |-> {}]
         /\ ares = [aerr |-> -1, cerr |-> -1, stored |-> {}]
 
-\* fanout.Querier: primary first, then every secondary; any error is returned (opened queriers are closed)
+\* fanout.Querier: the primary's error is returned; a secondary whose Querier() fails is replaced by a
+\* failedQuerier that fails every Select / label call with that error (commit b4c7e21123, formerly KF-C54-1:
+\* the secondary's error was returned, too)
 OpenQueriers ==
   /\ pc = "start" /\ op \in {"query", "labels"}
-  /\ LET bad == {i \in Stor : fail[i].k = "querier"} IN
-     IF bad # {} THEN /\ qerr' = Min(bad) /\ pc' = "done"
-                 ELSE /\ qerr' = -1 /\ pc' = "opened"
+  /\ IF fail[0].k = "querier" THEN /\ qerr' = 0 /\ pc' = "done"
+                              ELSE /\ qerr' = -1 /\ pc' = "opened"
   /\ UNCHANGED <<has, fail, op, nsel, selected, sfailed, warned, res, iter, lres, ares>>
 
 \* mergeGenericQuerier.Select: Select on every querier; the secondaries' sets are registered in asyncSets
@@ -129,7 +131,8 @@ Select ==
   /\ UNCHANGED <<has, fail, op, nsel, qerr, sfailed, warned, res, iter, lres, ares>>
 
 \* a secondary fails "early" on Select s: its set for s fails before returning a series
-EarlyAt(i, s) == fail[i].k \in {"select", "next1"} /\ fail[i].sel = s
+EarlyAt(i, s) == \/ fail[i].k \in {"select", "next1"} /\ fail[i].sel = s
+                 \/ i \in Secs /\ fail[i].k = "querier"           \* failedQuerier.Select = ErrSeriesSet
 LateAt(i, s)  == fail[i].k = "nextN" /\ fail[i].sel = s
 
 \* what storage i contributes to the set of Select s, given the secondaries discarded by once.Do
@@ -162,7 +165,7 @@ LabelQuery ==
   /\ pc = "opened" /\ op = "labels"
   /\ lres' = IF fail[0].k = "label" THEN [err |-> 0, from |-> {}, warns |-> {}]
              ELSE [err |-> -1, from |-> {i \in Stor : fail[i].k = "none" /\ has[i] # {}},
-                   warns |-> {i \in Secs : fail[i].k = "label"}]
+                   warns |-> {i \in Secs : fail[i].k \in {"label", "querier"}}]
   /\ pc' = "done"
   /\ UNCHANGED <<has, fail, op, nsel, qerr, selected, sfailed, warned, res, iter, ares>>
 
@@ -191,7 +194,6 @@ Spec == Init /\ [][Next]_vars
 -----------------------------------------------------------------------------
 (* Properties                                                               *)
 
-KF_C54_1 == \E i \in Secs : fail[i].k = "querier"
 KF_C54_2 == \E i \in Secs : fail[i].k = "nextN"
 
 QueryMatchesRef ==
@@ -217,7 +219,7 @@ CodeMatchesRef == pc = "done" =>
     [] op = "labels" -> LabelsMatchRef
     [] op = "append" -> AppendMatchesRef
 
-Conforms == CodeMatchesRef \/ KF_C54_1 \/ KF_C54_2
+Conforms == CodeMatchesRef \/ KF_C54_2
 
 \* the all-or-nothing rule of secondaryQuerier, as far as the code implements it: a secondary that failed
 \* early contributes to no returned set
@@ -227,7 +229,7 @@ AllOrNothing == pc = "done" /\ op = "query" /\ qerr = -1 =>
 -----------------------------------------------------------------------------
 (* Emission: one case per configuration, when the operation is done.        *)
 SeqS(f) == [x \in 1..(NSec + 1) |-> f[x - 1]]
-KFs == (IF KF_C54_1 THEN {"KF_C54_1"} ELSE {}) \cup (IF KF_C54_2 THEN {"KF_C54_2"} ELSE {})
+KFs == IF KF_C54_2 THEN {"KF_C54_2"} ELSE {}
 Case ==
   [op |-> op, nsel |-> nsel, has |-> SeqS([i \in Stor |-> SeqOf(has[i])]), fail |-> SeqS(fail), kf |-> KFs,
    \* append: the property fixes the outcome only without failures and when the primary's Commit fails
